@@ -443,6 +443,19 @@ class LiveRun:
         st["mkt"] = {mid: {"status": mk.market_book.status if mk.market_book is not None else "NONE", "closed": bool(mk.closed), "ncleared": len(mk.orders_cleared) + len(mk.market_cleared), "nlive": len(mk.blotter._live_orders), "nord": len(mk.blotter._orders),
                            "version": 0, "inplay": False, "betdelay": 0, "bsprec": False, "pt": 0, "removed": [], "nactive": 2, "nwin": 1}
                      for mid, mk in self.fl.markets.markets.items()}
+        # the blotter's status filters as the code answers them (C15)
+        from flumine.order.order import LIVE_STATUS
+        flt = {}
+        for mid, mk in self.fl.markets.markets.items():
+            flt[mid] = {}
+            for stg in self.fl.strategies:
+                flt[mid][stg.name] = {
+                    "livestatus": sorted(self.label_order(o) for o in mk.blotter.strategy_orders(stg, order_status=list(LIVE_STATUS))),
+                    "executable": sorted(self.label_order(o) for o in mk.blotter.strategy_orders(stg, order_status=[OrderStatus.EXECUTABLE])),
+                    "complete": sorted(self.label_order(o) for o in mk.blotter.strategy_orders(stg, order_status=[OrderStatus.EXECUTION_COMPLETE])),
+                    "all": sorted(self.label_order(o) for o in mk.blotter.strategy_orders(stg)),
+                }
+        st["flt"] = flt
         st["pool"] = [{"kind": KIND_NAME[a[0].package_type], "orders": [self.label_order(o) for o in a[0]._orders], "retry": a[0].retry_count} for (fn, a, kw) in self.pool.thunks]
         st["hq"] = []
         ctl = [c for c in self.client.trading_controls if c.NAME == "MAX_TRANSACTION_COUNT"][0]
